@@ -149,4 +149,148 @@ theorem allSome_autoInts (l : List Int) : allSome ((l.map Atom.int).map atomAuto
     simp only [List.map_cons, allSome, atomAutoInt] at *
     rw [ih]; rfl
 
+/-! ### digits of any base up to 16; signs -/
+
+theorem toDigits_head_b (b : Nat) (hb : 1 < b) (hb16 : b ≤ 16) (n : Nat) (hn : 0 < n) :
+    ∃ c t, Nat.toDigits b n = c :: t ∧ (c == '0') = false ∧ (c == '_') = false ∧ (c == '-') = false ∧ (c == '+') = false := by
+  induction n using Nat.strongRecOn with
+  | _ n ih =>
+    rw [Nat.toDigits_eq_if hb]
+    by_cases h : n < b
+    · simp only [h, if_true]
+      obtain ⟨_, h2, _, h4, h5⟩ := digitChar_facts n (by omega)
+      exact ⟨_, [], rfl, digitChar_ne_zero n (by omega) hn, h2, h4, h5⟩
+    · simp only [h, if_false]
+      obtain ⟨c, t, e, hc⟩ := ih (n / b) (Nat.div_lt_self (by omega) hb) (Nat.div_pos (by omega) (by omega))
+      exact ⟨c, t ++ [Nat.digitChar (n % b)], by simp [e], hc⟩
+
+theorem toDigits_isEmpty (b n : Nat) : (Nat.toDigits b n).isEmpty = false := by
+  cases h : Nat.toDigits b n with
+  | nil => exact absurd h Nat.toDigits_ne_nil
+  | cons _ _ => rfl
+
+/-- a magnitude text without white space and without a sign of its own, read through `withSign ∘ strip` -/
+theorem signed_of_mag (f : Str → Option Nat) (s : Str) (n : Nat) (hws : ∀ c ∈ s, isWs c = false) (hm : f s = some n)
+    (hsign : ∀ c t, s = c :: t → (c == '-') = false ∧ (c == '+') = false) :
+    withSign f (strip s) = some (Int.ofNat n) ∧ withSign f (strip ('-' :: s)) = some (-(Int.ofNat n)) ∧
+    withSign f (strip ('+' :: s)) = some (Int.ofNat n) := by
+  have hm' : isWs '-' = false := by decide
+  have hp' : isWs '+' = false := by decide
+  rw [strip_noWs s hws, strip_noWs ('-' :: s) (by intro c hc; rcases List.mem_cons.mp hc with rfl | h; exact hm'; exact hws c h),
+    strip_noWs ('+' :: s) (by intro c hc; rcases List.mem_cons.mp hc with rfl | h; exact hp'; exact hws c h)]
+  cases s with
+  | nil => simp [withSign, hm]
+  | cons c t =>
+    obtain ⟨h1, h2⟩ := hsign c t rfl
+    refine ⟨?_, ?_, ?_⟩
+    · simp only [withSign, h1, h2]; simp [hm]
+    · simp [withSign, hm]
+    · simp [withSign, hm]
+
+/-! ### `int(x, 16)` -/
+
+theorem parseMag16_digits (n : Nat) : parseMag16 (Nat.toDigits 16 n) = some n := by
+  by_cases hn : n = 0
+  · subst hn; decide +kernel
+  · obtain ⟨c, t, e, h0, hu, _, _⟩ := toDigits_head_b 16 (by omega) (by omega) n (by omega)
+    have hp := parseDigits_toDigits 16 (by omega) (by omega) n
+    rw [e] at hp ⊢
+    unfold parseMag16
+    split
+    · rename_i p rest heq
+      injection heq with hc _
+      subst hc
+      simp at h0
+    · simp [hu, hp]
+
+theorem parseMag16_prefixed (n : Nat) : parseMag16 ('0' :: 'x' :: Nat.toDigits 16 n) = some n ∧
+    parseMag16 ('0' :: 'X' :: Nat.toDigits 16 n) = some n := by
+  have hp := parseDigits_toDigits 16 (by omega) (by omega) n
+  have he := toDigits_isEmpty 16 n
+  constructor <;> simp [parseMag16, he, hp]
+
+/-! ### pydantic's lax `str -> int` on plain decimal text -/
+
+theorem isDigit_not_special (c : Char) (h : c.isDigit = true) :
+    (c != '.') = true ∧ (c == '_') = false ∧ (c == '-') = false ∧ (c == '+') = false ∧ isWs c = false := by
+  have h1 : c ≠ '.' := by rintro rfl; exact absurd h (by decide)
+  have h2 : c ≠ '_' := by rintro rfl; exact absurd h (by decide)
+  have h3 : c ≠ '-' := by rintro rfl; exact absurd h (by decide)
+  have h4 : c ≠ '+' := by rintro rfl; exact absurd h (by decide)
+  have h5 : isWs c = false := by
+    simp only [Char.isDigit, Bool.and_eq_true, decide_eq_true_eq] at h
+    have hv : 48 ≤ c.toNat := by
+      have := h.1
+      exact UInt32.le_iff_toNat_le.mp this
+    simp only [isWs, Bool.or_eq_false_iff]
+    refine ⟨⟨⟨⟨⟨?_, ?_⟩, ?_⟩, ?_⟩, ?_⟩, ?_⟩
+    · apply beq_false_of_ne; rintro rfl; simp at hv
+    · apply beq_false_of_ne; rintro rfl; simp at hv
+    · apply beq_false_of_ne; rintro rfl; simp at hv
+    · apply beq_false_of_ne; rintro rfl; simp at hv
+    · apply beq_false_of_ne; omega
+    · apply beq_false_of_ne; omega
+  exact ⟨by simpa using h1, by simpa using h2, by simpa using h3, by simpa using h4, h5⟩
+
+theorem toDigits10_isDigit (n : Nat) : ∀ c ∈ Nat.toDigits 10 n, c.isDigit = true :=
+  fun _ hc => Nat.isDigit_of_mem_toDigits (by omega) (by omega) hc
+
+theorem dropWhile_all {α} (p : α → Bool) (l : List α) (h : ∀ x ∈ l, p x = true) : l.dropWhile p = [] := by
+  induction l with
+  | nil => rfl
+  | cons a l ih => simp [List.dropWhile, h a (by simp), ih (fun x hx => h x (by simp [hx]))]
+
+theorem takeWhile_all {α} (p : α → Bool) (l : List α) (h : ∀ x ∈ l, p x = true) : l.takeWhile p = l := by
+  induction l with
+  | nil => rfl
+  | cons a l ih => simp [List.takeWhile, h a (by simp), ih (fun x hx => h x (by simp [hx]))]
+
+/-- the cleaning steps leave a plain decimal numeral alone, and the JSON integer syntax reads it -/
+theorem laxSteps_decimal (n : Nat) :
+    stripLeadingZeros (Nat.toDigits 10 n) = some (Nat.toDigits 10 n) ∧
+    stripDecimalZeros (Nat.toDigits 10 n) = Nat.toDigits 10 n ∧
+    stripUnderscores (Nat.toDigits 10 n) = Nat.toDigits 10 n ∧
+    jsonNat (Nat.toDigits 10 n) = some n := by
+  have hdig := toDigits10_isDigit n
+  have hp := parseDigits_toDigits 10 (by omega) (by omega) n
+  have hall : (Nat.toDigits 10 n).all Char.isDigit = true := List.all_eq_true.mpr hdig
+  have hdot : ∀ c ∈ Nat.toDigits 10 n, (c != '.') = true := fun c hc => (isDigit_not_special c (hdig c hc)).1
+  have hus : (Nat.toDigits 10 n).contains '_' = false := by
+    apply Bool.eq_false_iff.mpr
+    intro hc
+    exact absurd (hdig _ (List.contains_iff_mem.mp hc)) (by decide)
+  refine ⟨?_, ?_, ?_, ?_⟩
+  · by_cases hn : n = 0
+    · subst hn; decide +kernel
+    · obtain ⟨c, t, e, h0, _, _, _⟩ := toDigits_head_b 10 (by omega) (by omega) n (by omega)
+      have hc : c.isDigit = true := hdig c (by rw [e]; simp)
+      rw [e]
+      have hne : c ≠ '0' := by simpa using h0
+      have hnz : isNzDigit c = true := by simp [isNzDigit, hc, hne]
+      simp [stripLeadingZeros, h0, hnz]
+  · simp [stripDecimalZeros, dropWhile_all _ _ hdot]
+  · have := hus
+    simp [stripUnderscores]
+  · by_cases hn : n = 0
+    · subst hn; decide +kernel
+    · obtain ⟨c, t, e, h0, _, _, _⟩ := toDigits_head_b 10 (by omega) (by omega) n (by omega)
+      rw [e] at hall hp ⊢
+      simp [jsonNat, hall, h0, hp]
+
+/-- a stored list of enum values (integers, all members) is read back element by element -/
+theorem parseEach_enums (ms : List (Str × Int)) (l : List Int) (h : l.all (fun i => ms.any (·.2 == i)) = true) :
+    parseEach (enumElem ms) (l.map Atom.int) = .ok l := by
+  induction l with
+  | nil => rfl
+  | cons a l ih =>
+    simp only [List.all_cons, Bool.and_eq_true] at h
+    have h1 : enumElem ms (.int a) = .ok a := by simp only [enumElem, enumLookup, h.1, if_true]
+    simp only [List.map_cons, parseEach, h1]
+    rw [ih h.2]
+
+theorem lookupJ_store_skip (n x : Str) (v : Val) (rest : List (Str × Val)) (h : x ≠ n) :
+    lookupJ n (store ((x, v) :: rest)) = lookupJ n (store rest) := by
+  have : (x == n) = false := by simpa using h
+  simp [store, lookupJ, this]
+
 end Gallia.Config
